@@ -56,13 +56,31 @@ fn(H2 + ".handle", params={"event": _ev.IO_EVENTS}, task="reader",
 fn(H2 + ".stream_send", params={"event": _ev.STREAM_EVENTS}, task="app",
    requires=[("stream_send.pre.sid", "event.stream_id > 0")], props=("C04", "C05"))
 
-fn(H2 + "._handle_events", params={"events": "obj pyvc:H2Events"}, task="reader", props=("C04",))
+fn(H2 + "._handle_events", params={"events": "obj pyvc:H2Events"}, task="reader",
+   loops={0: {"body_ensures": [
+       # C01/C09: every DATA frame is acknowledged for flow control with its flow-controlled
+       # length, whether or not its stream still exists (otherwise the connection window drains)
+       ("C09.ack", "implies(isinstance(event, h2.events.DataReceived), trace_any('h2', 'x', x[0] == 'ack' and x[1] == event.stream_id and x[2] == event.flow_controlled_length))", "C09,C04,C01"),
+   ]}},
+   props=("C04",))
 
 fn(H2 + "._create_stream", params={"request": "obj h2.events:RequestReceived"}, task="reader",
    loops={0: {"locals": {"method": "str", "raw_path": "bstr"}}},
    props=("C04", "C01", "C18"))
 
-fn(H2 + "._window_updated", params={"stream_id": "opt int"}, task="reader", props=("C04", "C09"))
+fn(H2 + "._window_updated", params={"stream_id": "opt int"}, task="reader",
+   loops={0: {"invariant": [
+       ("window.loop.buffers-unchanged", "map_same(self.stream_buffers, old(self.stream_buffers))"),
+       ("window.loop.processed-unblocked", "forall_int('k', implies(in_map(old(self.stream_buffers), k) and key_pos(_it, k) < _i, sel(self.priority.active, k)))"),
+   ]}},
+   ensures=[
+       # C09.wake: new credit on the connection (stream 0) or a changed initial window makes every
+       # stream with buffered data schedulable again, and the send task is woken
+       ("C09.wake.all", "implies(stream_id is None or stream_id == 0, forall_int('k', implies(in_map(old(self.stream_buffers), k), sel(self.priority.active, k))))", "C09,C08"),
+       ("C09.wake.one", "implies(stream_id is not None and stream_id != 0 and in_map(old(self.stream_buffers), stream_id), sel(self.priority.active, stream_id))", "C09,C08"),
+       ("C09.wake.signal", "self.has_data.flag", "C09,C08"),
+   ],
+   props=("C04", "C09"))
 fn(H2 + "._priority_updated", params={"event": "obj h2.events:PriorityUpdated"}, task="reader", props=("C04", "C09"))
 fn(H2 + "._close_stream", params={"stream_id": "int"}, props=("C04", "C03"))
 # raised into stream_send, which swallows the ProtocolError family (stream ids exhausted)
